@@ -104,7 +104,8 @@ class Scheduler:
     def project(self, av):
         cache = av.cache
         comp = tuple(k for k, lev in enumerate(list(cache)) if lev and any(v is None for v in list(lev.values())))
-        return (len(cache), comp, self.lock_owner)
+        done_calls = tuple(sorted(getattr(self, "completed", {}).items()))
+        return (len(cache), comp, self.lock_owner, done_calls)
 
     def run(self, av, fns, policy, max_steps=200000):
         """fns: {tid: callable}.  policy(state) -> tid to run next (state = dict with runnable, steps, ...)."""
@@ -155,7 +156,8 @@ class Scheduler:
                             continue
                     stuck = True
                     break
-                t = policy({"runnable": runnable, "steps": self.steps, "done": self.done, "blocked": self.blocked})
+                t = policy({"runnable": runnable, "steps": self.steps, "done": self.done, "blocked": self.blocked,
+                            "events": self.events})
                 if t not in runnable:
                     t = runnable[0]
                 self.go[t].release()
@@ -198,6 +200,10 @@ class Scheduler:
         for k in q[1]:
             if k not in p[1]:
                 self.events.append({"t": t, "ev": "CompactOne", "k": k, "size": 0})
+        if len(p) > 3 and p[3] != q[3]:
+            for (th, n0), (_, n1) in zip(p[3], q[3]):
+                for c in range(n0, n1):
+                    self.events.append({"t": th, "ev": "CallDone", "k": c + 1, "size": 0})
 
 
 def preempt_policy(order, first, j):
@@ -241,3 +247,37 @@ def two_preempt_policy(order, first, j1, second, j2):
             return second
         return st["runnable"][0]
     return policy
+
+
+class EventWordPolicy:
+    """Follow a behaviour of the model given as its word of observable events: let the thread of the next event run
+    until an observable event occurs; it must be the expected one.  On the first mismatch (or if the thread cannot
+    run) the word is abandoned (`mismatch` says why) and the threads are run to completion round-robin."""
+
+    def __init__(self, word):
+        self.word = word
+        self.pos = 0
+        self.seen = 0
+        self.mismatch = None
+        self.budget = 0
+
+    def __call__(self, st):
+        ev = st["events"]
+        while self.mismatch is None and self.pos < len(self.word) and self.seen < len(ev):
+            got = ev[self.seen]
+            self.seen += 1
+            if got["ev"] == "Return":
+                continue
+            want = self.word[self.pos]
+            if got["t"] == want["t"] and got["ev"] == want["kind"] and (want["kind"] in ("Acquire", "Release") or got.get("k", 0) == want["k"]):
+                self.pos += 1
+                self.budget = 0
+            else:
+                self.mismatch = {"at": self.pos, "want": want, "got": got}
+        if self.mismatch is None and self.pos < len(self.word):
+            t = self.word[self.pos]["t"]
+            self.budget += 1
+            if t in st["runnable"] and self.budget < 100000:
+                return t
+            self.mismatch = {"at": self.pos, "want": self.word[self.pos], "got": "thread %s cannot run" % t}
+        return st["runnable"][0]
